@@ -33,6 +33,19 @@ def bounds(tier):
             "offset2line": "start lists <= 4 over {0,2,4,6,10} x queries 0..12"}
 
 
+# every host reads the compiled programs (native path where the file is the host's own version);
+# the synthetic spaces run on the primary host
+SECONDARY_KINDS = ("prog", "offset2line")
+
+
+def hosts(tier):
+    return common.HOSTS
+
+
+def workers_for_host(tier, host):
+    return 6 if host == common.PRIMARY else 2
+
+
 def prepare(tier):
     vers = QUICK_VERS if tier == "quick" else common.REFS
     k = 1 if tier == "quick" else 2
